@@ -300,7 +300,11 @@ namespace cnl {
         [[nodiscard]] constexpr auto operator()(Input const& from) const
         {
             // TODO: unsigned specialization
-            return static_cast<result>(from);
+            auto const truncated = static_cast<result>(from);
+            return (from < Input{} && from < static_cast<Input>(truncated))
+                         ? static_cast<result>(_impl::from_rep<result>(
+                                 static_cast<ResultRep>(_impl::to_rep(truncated) - 1)))
+                         : truncated;
         }
     };
 
